@@ -61,6 +61,8 @@ func c01(tier string) []*explore.Scenario {
 	// up to 64 callers whose handlers all wait: every queue of the path is full at once
 	out = append(out, c01Gated("direct", 64, 64, 0), c01Gated("direct", 32, 0, 0), c01Gated("demux", 64, 64, 0), c01Gated("demux", 40, 0, 0),
 		c01Gated("proxy", 40, 64, 0), c01Gated("proxy", 24, 0, 0), c01Gated("demux", 12, 0, 1), c01Gated("proxy", 64, 0, 0), c01Gated("demux", 20, 64, 1), c01Gated("proxy", 20, 64, 1), c01Gated("direct", 20, 0, 1))
+	// finer granularity (a scheduling point after every Unlock as well) on the small core scenarios
+	out = append(out, fineGrained(c01Direct(2, env.PipeOpts{Cap: 64}, 2, false), c01Direct(3, env.PipeOpts{Cap: 0}, 1, false))...)
 	return out
 }
 
